@@ -218,6 +218,20 @@ func c16run(c *fw.Ctx, idx int) {
 			setFile(b, exts[r.Intn(len(exts))])
 		}
 	}
+	if dev && custom {
+		// a Cache that already holds entries (shared with a production Set, say): development mode does not look at it
+		staleSet := jet.NewSet(jet.NewInMemLoader())
+		for _, b := range c16bases {
+			for _, e := range exts {
+				if t, err := staleSet.Parse(b+e, "STALE-ENTRY-OF-A-SHARED-CACHE"); err == nil {
+					ch.Put(b+e, t)
+				}
+			}
+		}
+		ch.Log.Reset()
+		hist = append(hist, c16op{Op: "PrefillCache", Arg: "every candidate path holds a stale template"})
+		c.Count("development_sets_over_a_prefilled_cache", 1)
+	}
 	actual := map[string]*jet.Template{} // requested name -> template returned when it was remembered
 	fail := func(sig, detail string) {
 		cfg["history"] = hist
@@ -491,7 +505,7 @@ func init() {
 		ID:        "C16",
 		Technique: "sequential history checking: recorded Loader/Cache call traces, returned template identities and rendered version tokens compared with an executable model of the cache statement",
 		Rule: "each case is one random history (10-60 operations) on one Set: GetTemplate (+Execute), executing a template obtained earlier once more, Set.Parse of a template extending/importing/including the others (+Execute), file edits with fresh version tokens, deletions, injected faults (Exists true but Open fails, reader failing after n bytes, unparsable content, broken parent) " +
-			"over 4 base names x 5 extension lists x {development mode, normal} x {default cache, recording custom cache}; files extend/import/include only higher-numbered bases (acyclic); " +
+			"over 4 base names x 5 extension lists x {development mode, normal} x {default cache, recording custom cache (pre-filled with stale entries in development mode)}; files extend/import/include only higher-numbered bases (acyclic); " +
 			"oracle per operation: outcome, exact Loader.Exists/Open trace (hit = none, miss = extension probes in order up to the first existing file), pointer identity on hits, Cache.Put list (never in development mode or during Parse), rendered versions; " +
 			"non-trivial = history contains a failed lookup and (a cache hit or development mode); distinct by configuration and hit/miss/failure counts; case 0 is the directed witness of known finding K2",
 		Assumptions: []string{"requested names are bare base names (a name that equals another name plus a configured extension is the separate known finding K2)", "the in-memory loader is correct (C19)"},
